@@ -28,3 +28,5 @@ CFG = dict(
      level_note="Trusts the Go time package (zone data and ZoneBounds), rapid, and the harness' own reference implementation (self-tested on hand-computed "
                 "instants incl. New York gap/overlap, Apia's skipped day, Lord Howe's half-hour shift, and against a second-by-second scan).",
      timeout_quick=600, timeout_thorough=3000)
+CFG["fuzz"] = [dict(target="FuzzNext", seconds=90)]
+CFG["technique"] += " + coverage-guided native fuzzing of the Next property in the thorough tier (go test -fuzz over rapid's bit stream)"
